@@ -45,6 +45,12 @@ impl LocalNameHash {
         Self(0)
     }
 
+    #[cfg(feature = "_verif_hooks")]
+    #[must_use]
+    pub const fn verif_value(&self) -> u64 {
+        self.0
+    }
+
     #[inline]
     #[must_use]
     pub const fn is_empty(&self) -> bool {
